@@ -237,13 +237,23 @@ def get_sched():
     return _sched
 
 
+class Full(Exception):
+    pass
+
+
 class VQueue:
     def __init__(self, maxsize=0):
         self.items = collections.deque()
         self.unfinished_tasks = 0
+        self.maxsize = maxsize or 0
         self.s = _sched
 
     def put(self, item, block=True, timeout=None):
+        if self.maxsize > 0 and len(self.items) >= self.maxsize:
+            # a bounded queue.Queue: put() waits for room
+            if not block or not self.s.block(lambda: len(self.items) < self.maxsize, timeout,
+                                             'queue.put'):
+                raise Full()
         self.items.append(item)
         self.unfinished_tasks += 1
 
